@@ -41,8 +41,10 @@ def gen_leaf(rnd, env):
         return apm.num(v, rnd.choice([None, None, "d", "x", "0o", "b", "^X", "^O", "^B", "^D"]))
     if r < 0.55:
         return ("sym", rnd.choice(env["consts"]))
-    if r < 0.60:
+    if r < 0.58:
         return ("sym", rnd.choice(env["aliases"]))
+    if r < 0.62:
+        return ("sym", rnd.choice(env["derived"]))
     if r < 0.72:
         return ("sym", rnd.choice(env["labels"]))
     if r < 0.78:
@@ -62,6 +64,13 @@ def gen_expr(rnd, env, depth):
     if depth <= 0 or rnd.random() < 0.15:
         return gen_leaf(rnd, env)
     r = rnd.random()
+    if rnd.random() < 0.06:
+        # the same name several times in one additive chain: x + x, 2*x + x, x - x + k ... (x any kind of symbol)
+        x = ("sym", rnd.choice(env["derived"] + env["derived"] + env["consts"] + env["aliases"] + env["labels"]))
+        k = apm.num(rnd.randrange(0, 50))
+        return rnd.choice([("bin", "+", x, x), ("bin", "+", ("bin", "*", apm.num(rnd.randrange(2, 6)), x), x), ("bin", "+", ("bin", "-", x, x), k),
+                           ("bin", "+", ("bin", "+", x, x), x), ("bin", "-", ("bin", "+", k, x), x), ("bin", "-", ("bin", "+", x, k), ("grp", ("bin", "-", k, x))),
+                           ("bin", "+", ("bin", "+", x, gen_leaf(rnd, env)), x), ("bin", "-", ("bin", "*", x, apm.num(3)), x)])
     if r < 0.2:
         return ("un", rnd.choice(apm.UNARY), gen_expr(rnd, env, depth - 1))
     if r < 0.25:
@@ -88,7 +97,12 @@ def build_env(rnd):
     from vlib import apm
     env = {"consts": [f"kc{i}" for i in range(8)], "labels": ["la0", "la1", "la2"], "locals": ["1$", "7$"], "shifts": ["sh0", "sh1", "sh2"],
            # address-valued constants: a chain al2 -> al1 -> al0 -> la2 whose definitions may come before their targets exist
-           "aliases": ["al0", "al1", "al2"], "alias_k": [rnd.randrange(0, 9) for _ in range(3)]}
+           "aliases": ["al0", "al1", "al2"], "alias_k": [rnd.randrange(0, 9) for _ in range(3)],
+           # constants whose value is not known when they are defined (and may still be unknown when they are used): defined through a
+           # constant that is defined at the very end (kc7), through a non-linear function of an address, through each other
+           "derived": ["dk0", "dk1", "dk2"], "derived_k": [rnd.randrange(0, 9) for _ in range(3)]}
+    # the output charset gives character literals their value
+    env["charset"] = rnd.choice(["bk"] * 5 + ["koi8-r", "cp1251", "cp866", "utf-8", "latin-1", "cp500", "cp037", "utf-16-le", "utf-16", "cp1026"])
     values = {}
     for c in env["consts"]:
         values[c] = rnd.choice([0, 1, 2, 3, 5, 64, 255, 1000, 0o177777, 1 << 20, rnd.randrange(0, 1 << 16), -rnd.randrange(1, 1000)])
@@ -101,12 +115,17 @@ def build_env(rnd):
 def build_program(rnd, env, exprs, directive=".dword", repeated=(), indexed=()):
     from vlib import apm
     base = rnd.choice([0o1000, 0, 0o2000, 0o100000, 0o40000])
-    before = [apm.assign(c, apm.num(v)) for c, v in env["values"].items() if rnd.random() < 0.5]
+    before = [apm.assign(c, apm.num(v)) for c, v in env["values"].items() if rnd.random() < 0.5 and c != "kc7"]
     names_before = {s.name for s in before}
     after = [apm.assign(c, apm.num(v)) for c, v in env["values"].items() if c not in names_before]
     k = env["alias_k"]
     alias_defs = [apm.assign("al0", ("bin", "+", ("sym", "la2"), apm.num(k[0]))), apm.assign("al1", ("bin", "+", ("sym", "al0"), apm.num(k[1]))),
                   apm.assign("al2", ("bin", "+", ("sym", "al1"), apm.num(k[2])))]
+    dk = env["derived_k"]
+    derived_defs = [apm.assign("dk0", ("bin", "+", ("sym", "kc7"), apm.num(dk[0]))), apm.assign("dk1", ("bin", "/", ("sym", "la2"), apm.num(dk[1] + 2))),
+                    apm.assign("dk2", ("bin", "+", ("bin", "*", ("sym", "dk0"), apm.num(dk[2])), ("sym", "dk1")))]
+    rnd.shuffle(derived_defs)
+    before = derived_defs + before
     order = rnd.choice(["top", "top-reversed", "bottom", "bottom-reversed"])
     if "reversed" in order:
         alias_defs.reverse()
@@ -136,7 +155,7 @@ def build_program(rnd, env, exprs, directive=".dword", repeated=(), indexed=()):
     stmts += [apm.label("la1"), apm.data(".word", apm.num(2)), apm.label("la2")] + after
     if order.startswith("bottom"):
         stmts += alias_defs
-    return apm.Program([apm.SrcFile("f0.mac", stmts)])
+    return apm.Program([apm.SrcFile("f0.mac", stmts)], charset=env.get("charset", "bk"))
 
 
 def classify(prog):
